@@ -13,7 +13,7 @@ from vf.zoo import unit, vec
 
 ID = "C07"
 LEVEL = "exploration"
-BUDGET = {"quick": 19200, "thorough": 192000}
+BUDGET = {"quick": 38400, "thorough": 384000}
 RULE = (
     "Hypothesis draws a tractable-flow system (Euclidean, Gaussian-split, dense constrained with either density "
     "convention, Gaussian constrained) x all 14 constant metric types incl. implicit identity and low-rank "
